@@ -14,6 +14,29 @@ from bvmon import core  # noqa: E402
 
 core.setup_paths()
 
+TECHNIQUE = {
+    "C01": "runtime monitoring: invariant oracle (independent recogniser R1 + packaging PEP 440 order) on every observed test/update execution; byte snapshot + audit write-set on failure; K-order trace contract",
+    "C02": "runtime monitoring: round-trip oracle through the real render/read functions against the independent renderer R1, exhaustive calendar sweep; CLI feedback chains",
+    "C03": "runtime monitoring: byte-exact expectation of every file after update built from R1 (layouts proven unambiguous by R1); show read-back",
+    "C04": "runtime monitoring: byte/inode/mtime snapshots, audit-hook write-set, K04 conservation contract (icontract), ASCII-locale subprocess differential",
+    "C05": "runtime monitoring: history + executable reference model (R2 bump model, R4 PEP 440 gate) compared in both directions with observed `bumpver test` executions",
+    "C06": "runtime monitoring with fault injection: every single fault position enumerated per base project; byte snapshots, audit write-set, fake-VCS event log",
+    "C07": "runtime monitoring: K07 contract on the compiled regex AST (re parser) + behavioural oracle (self match span, near misses, rewrite, grep CLI); exhaustive short literals",
+    "C08": "runtime monitoring of histories in real git repositories: consistency oracle over files/show/commits/tags after every step",
+    "C09": "runtime monitoring: start version observed from show / update --dry against tag sets served by a fake git and built in real git; oracle = packaging max over R1-recognised tags per scope",
+    "C10": "runtime monitoring with fault injection: totally ordered event log written by fake git/hg/hook executables (argv, env, file checksums) checked against the trace model R7; exhaustive configuration product in thorough",
+    "C11": "runtime monitoring in real git repositories: exhaustive status x role x allow-dirty product; exit code, snapshot, commit count and commit content oracles",
+    "C12": "runtime monitoring: K12 argv-construction contract via audit hook, NUL-exact argv log of fake git/hg, read-back of commit/tag objects from real git",
+    "C13": "runtime monitoring: snapshot/audit/event-log around --dry; printed diff parsed and applied by an independent strict applier (R5) and compared with the real run",
+    "C14": "runtime monitoring: monotonicity oracle (packaging + integer tuples) over all consecutive day pairs 2001..2099 through the real renderer and the CLI; mis-pairing refusal by test and config loader",
+    "C15": "runtime monitoring: clause-by-clause oracle (packaging) on the text written for {pep440_version}, library, CLI and rewritten-file level",
+    "C16": "runtime monitoring: K16 icontract postcondition on parse_version + order-law checker over all ordered pairs and sampled triples against packaging",
+    "C17": "runtime monitoring: successor oracle (R3) and order/width invariants on successive `bumpver test` outputs; exhaustive start ids, long chains",
+    "C18": "runtime monitoring: one abstract configuration serialised to 7 syntaxes; loaded Config, show and update --dry compared across siblings and with the model R8",
+    "C19": "runtime monitoring: snapshots, audit write-set and show read-back around init --dry / init / init over the exhaustive layout product",
+    "C20": "runtime monitoring: legacy reference model vs real v1 render/read; ordering oracle on test/update results and 1,000-step chains; engine-dispatch trace",
+}
+
 props = [json.loads(l) for l in open(os.path.join(VERIF, "properties.jsonl"))]
 checks = []
 na = []
@@ -38,7 +61,7 @@ for p in props:
             "design_ref": f"DESIGN.md section 5 ({pid})",
         },
         "level_note": spec.get("level_note", "; ".join(spec.get("assumptions", []))),
-        "technique": spec.get("technique", "runtime monitoring: reference-model oracle over observed executions"),
+        "technique": spec.get("technique", TECHNIQUE[pid]),
     })
 
 manifest = {
